@@ -31,6 +31,10 @@ type C18Case struct {
 	NoRootArgs []string `json:"no_root_args,omitempty"`
 	// NeedsOutside: the only provider of some layer is outside, so the run must fail
 	NeedsOutside bool `json:"needs_outside"`
+	// API: drive the library directly (nested SetRoot calls) instead of the CLI
+	API   bool     `json:"api,omitempty"`
+	Roots []string `json:"set_root_calls,omitempty"`
+	Input string   `json:"api_input,omitempty"`
 }
 
 var c18States = []string{"baseline", "rewrite", "corrupt", "delete", "directories", "dangling", "extra-files", "eacces"}
@@ -67,7 +71,8 @@ func genC18(r *gen.Rand) *C18Case {
 	abs := func(p string) string { return "@ABS@/" + p } // resolved at materialisation time
 	input := "in.yaml"
 	vectors := []string{"parent-dotdot", "parent-absolute", "parent-wildcard", "parent-list", "symlink-relative", "symlink-absolute",
-		"symlink-chain", "dir-symlink", "symlink-name-parent", "input-dotdot", "virtual-ext", "parent-dotdot-sub"}
+		"symlink-chain", "dir-symlink", "symlink-name-parent", "input-dotdot", "virtual-ext", "parent-dotdot-sub",
+		"symlink-hops", "symlink-hops", "symlink-via-dirlink"}
 	c.Vector = gen.PickAny(r, vectors)
 	target := func(outside, inside string) string {
 		if c.Benign {
@@ -100,6 +105,38 @@ func genC18(r *gen.Rand) *C18Case {
 		w.Links = append(w.Links, procsim.Link{Path: c18Root + "/l1.yaml", Target: "sub/l2.yaml"})
 		w.Links = append(w.Links, procsim.Link{Path: c18Root + "/sub/l2.yaml", Target: target("../../outside/d.yaml", "../base.yaml")})
 		in["$parent"] = "l1"
+		c.NeedsOutside = !c.Benign
+	case "symlink-hops":
+		// a chain of 2-3 links, every hop spelled relative or absolute at
+		// random, the last one leaving the root (or, benign, staying inside)
+		hops := r.Range(2, 3)
+		names := []string{c18Root + "/h1.yaml", c18Root + "/sub/h2.yaml", c18Root + "/h3.yaml"}[:hops]
+		final := target(c18Outside+"/d.yaml", c18Root+"/base.yaml")
+		for i, n := range names {
+			next := final
+			if i+1 < len(names) {
+				next = names[i+1]
+			}
+			tgt := abs(next)
+			if r.Chance(0.5) {
+				rel, _ := filepath.Rel(filepath.Dir(n), next)
+				tgt = rel
+			}
+			w.Links = append(w.Links, procsim.Link{Path: n, Target: tgt})
+		}
+		in["$parent"] = "h1"
+		c.NeedsOutside = !c.Benign
+	case "symlink-via-dirlink":
+		// a file link (relative or absolute) whose target path runs through a
+		// directory link that leaves the root
+		w.Links = append(w.Links, procsim.Link{Path: c18Root + "/dl", Target: target("../outside", "sub")})
+		through := c18Root + "/dl/" + target("d.yaml", "s.yaml")
+		tgt := abs(through)
+		if r.Chance(0.5) {
+			tgt = "dl/" + target("d.yaml", "s.yaml")
+		}
+		w.Links = append(w.Links, procsim.Link{Path: c18Root + "/v.yaml", Target: tgt})
+		in["$parent"] = "v"
 		c.NeedsOutside = !c.Benign
 	case "dir-symlink":
 		w.Links = append(w.Links, procsim.Link{Path: c18Root + "/dl", Target: target("../outside", "sub")})
@@ -161,6 +198,26 @@ func genC18(r *gen.Rand) *C18Case {
 		// decoys for this vector are the files of root/ itself; handled by states through the generic outside dir too
 	}
 	c.Args = []string{"-r", rootArg, inputArg}
+	if !c.RootAll && r.Chance(0.25) {
+		// the same confinement reached through nested SetRoot calls on the library
+		c.API = true
+		c.Input = inputArg
+		switch r.Intn(3) {
+		case 0:
+			c.Roots = []string{abs("W"), rootArg}
+		case 1:
+			c.Roots = []string{"/", abs("W"), rootArg}
+		default:
+			c.Roots = []string{rootArg}
+		}
+		if rootArg == "sub" || rootArg == ".." || rootArg == "." {
+			c.Roots = []string{abs(c18Root), rootArg}
+			if rootArg == ".." {
+				// ".." from W/root/sub is W/root itself: fine under a first root of W
+				c.Roots = []string{abs("W"), rootArg}
+			}
+		}
+	}
 	if r.Chance(0.3) {
 		c.Args = append([]string{"-f", r.Pick("json", "yaml")}, c.Args...)
 	}
@@ -327,14 +384,48 @@ func judgeC18(e *Env, c *C18Case, tag string, run int64) (*c18Obs, error) {
 			args[i] = resolveAbs(root, a)
 		}
 		inv := &procsim.Invocation{Kind: "stock", Args: args, Cwd: c.Cwd, Trace: true}
+		tool := "bkl"
+		if c.API {
+			tool = "worker-stock"
+			req := &wire.Request{Run: run, Sched: wire.Sched{Mode: "Native"}}
+			var ops []wire.Op
+			for _, rt := range c.Roots {
+				ops = append(ops, wire.Op{Op: "SetRoot", Path: resolveAbs(root, rt)})
+			}
+			ops = append(ops, wire.Op{Op: "MergeFileLayers", Path: resolveAbs(root, c.Input)}, wire.Op{Op: "Output", Format: "json"})
+			req.Tasks = []wire.TaskSpec{{Ops: ops}}
+			js, _ := json.Marshal(req)
+			inv.Args = nil
+			inv.Stdin = string(js) + "\n"
+		}
 		if state == "eacces" {
 			for _, p := range c.outsideFiles() {
 				inv.Injects = append(inv.Injects, procsim.Inject{Syscall: "openat", Path: p, Errno: "EACCES"})
 			}
 		}
-		out, err := runInv(e, root, "bkl", inv)
+		out, err := runInv(e, root, tool, inv)
 		if err != nil {
 			return nil, err
+		}
+		if c.API && out.Crash == "" {
+			// translate the driver's answer into the CLI's terms: status 0 and
+			// the output bytes iff every call succeeded
+			lines := strings.Split(strings.TrimSpace(out.Stdout), "\n")
+			var res wire.Result
+			if err := json.Unmarshal([]byte(lines[len(lines)-1]), &res); err != nil || len(res.Tasks) != 1 {
+				return nil, &libsim.InfraError{Msg: "library driver: bad answer: " + short(out.Stdout, 300) + " / " + short(out.Stderr, 300)}
+			}
+			out.Status, out.Stdout = 0, ""
+			for i, r := range res.Tasks[0] {
+				if r.Outcome != "ok" {
+					out.Status = 1
+					out.Stderr = fmt.Sprintf("call %d: %s %s", i, r.Outcome, r.Err)
+					break
+				}
+				if r.Bytes != nil {
+					out.Stdout = *r.Bytes
+				}
+			}
 		}
 		obs.Outcomes[state] = trimOutcome(out)
 		obs.Injected += out.Injected
@@ -386,7 +477,7 @@ func judgeC18(e *Env, c *C18Case, tag string, run int64) (*c18Obs, error) {
 		if ok && strings.Contains(out.Stdout, "secret") && !c.RootAll {
 			return fail("outside-content-in-output", state, short(out.Stdout, 300))
 		}
-		if (c.Benign || c.RootAll) && state == "baseline" && len(c.NoRootArgs) > 0 {
+		if (c.Benign || c.RootAll) && !c.API && state == "baseline" && len(c.NoRootArgs) > 0 {
 			a2 := make([]string, len(c.NoRootArgs))
 			for i, a := range c.NoRootArgs {
 				a2[i] = resolveAbs(root, a)
@@ -456,6 +547,9 @@ func RunC18(e *Env) (int, error) {
 		}
 		ev.Eval(key)
 		ev.Count("vector."+c.Vector, 1)
+		if c.API {
+			ev.Count("library_api_nested_setroot_runs", 1)
+		}
 		if c.Benign {
 			ev.Count("benign_twins", 1)
 		}
